@@ -121,6 +121,12 @@ def module_state():
     return out
 
 
+def _registry(writer):
+    """The writer's descriptor registry if it is where it is today; the generic projection covers the object either way."""
+    reg = getattr(getattr(writer, "packer", None), "descriptors", None)
+    return reg if isinstance(reg, dict) else {}
+
+
 def reg_canon(descriptors):
     out = []
     for k, d in descriptors.items():
@@ -248,7 +254,7 @@ def step_binary(hist, conf):
                 dec_reg = sorted([repr(k), v[0], [list(f) for f in v[1]]] for k, v in dec.reg.items())
             except refcodec.FormatError:
                 dec_reg = ["format-error"]
-        canon.append([writers[wi].header_written, reg_canon(writers[wi].packer.descriptors), dec_reg, generic_canon(writers[wi])])
+        canon.append([getattr(writers[wi], "header_written", None), reg_canon(_registry(writers[wi])), dec_reg, generic_canon(writers[wi])])
     canon.append(module_state())
     if hist and last_failed:
         # the record was refused; judge only that the stream is still well formed for what was accepted
@@ -348,7 +354,7 @@ def step_json(hist, conf):
                 if cur[0] is None:
                     cur[0] = [e[2], [list(f) for f in e[3]]]
                 cur[1] = [e[2], [list(f) for f in e[3]]]
-        canon.append([reg_canon(writers[wi].packer.descriptors), sorted(rreg.items()), generic_canon(writers[wi])])
+        canon.append([reg_canon(_registry(writers[wi])), sorted(rreg.items()), generic_canon(writers[wi])])
     canon.append(module_state())
     if hist and last_failed:
         for wr in writers:
@@ -417,8 +423,8 @@ def step_json(hist, conf):
 def run_case(case):
     """Replay: judge every prefix of the history."""
     if case.get("kind") == "tla-edge":
-        ok, got = replay_edge((case["path"], None, case["writers"]))
-        return {"ev": 1, "h": jhash(case), "viol": [("C03:tla:implementation-diverges-from-model:%s" % case["path"][-1][1], case, {"implementation_frames": got})]}
+        ok, got, _ = replay_edge((case["path"], case.get("model_steps"), case["writers"]))
+        return {"ev": 1, "h": jhash(case), "viol": [] if ok else [("C03:tla:implementation-diverges-from-model:%s" % case["path"][-1][1], case, {"implementation_frames": got})]}
     CONF.update({"packer": case["packer"], "m": case["m"], "kinds": list(KINDS), "werror": bool(case.get("werror"))})
     viol = []
     hist = case["history"]
@@ -475,11 +481,24 @@ def run_tlc(cfg, workers):
         shutil.rmtree(d, ignore_errors=True)
 
 
+TLA_FIELDS = {v: k for k, v in TLA_DESC.items()}  # model descriptor -> (name, fields)
+
+
+def _real_ident(d):
+    name, fields = TLA_FIELDS[d]
+    return (name, refcodec.desc_hash(name, [tuple(f) for f in fields]))
+
+
 def replay_edge(job):
-    """job = (path of [writer, kind] pairs incl. the edge's own action, expected frames of the last step, writers)"""
+    """job = (path of [writer, kind] pairs incl. the edge's own action, model frames of every step of the path, writers).
+
+    Conformance is a refinement, not byte equality: after the edge the registry a reader of every writer's stream holds must equal
+    the registry the model predicts (last announcement per identifier wins), and the step must have put exactly one record frame
+    on the wire, as its last frame. A writer that announces more often than the model (redundantly) still conforms; one that
+    skips or reorders an announcement the model needs does not. Frames identical to the model's are counted separately."""
     from flow.record import RecordStreamWriter
 
-    path, want, wnames = job
+    path, model_steps, wnames = job
     bufs = {w: io.BytesIO() for w in wnames}
     writers = {w: RecordStreamWriter(bufs[w]) for w in wnames}
     before = 0
@@ -488,21 +507,44 @@ def replay_edge(job):
             before = len(bufs[w].getvalue())
         writers[w].write(recs.build_record(KINDS[TLA_KIND[k]]))
     w, k = path[-1]
-    delta = bufs[w].getvalue()[before:]
-    got = []
-    for _, _, payload in refcodec.split_frames(delta):
-        v = refcodec.mp_one(payload)
-        if isinstance(v, refcodec.Bin):
-            continue  # stream header
-        st, val = refcodec.mp_one(v.data)
-        if st == refcodec.T_DESC:
-            name, fields = val
-            got.append(["D", TLA_DESC.get((name, tuple(tuple(f) for f in fields)), "?%s" % name)])
-        else:
-            got.append(["R", k])
+
+    def frames_of(data, kind):
+        out = []
+        for _, _, payload in refcodec.split_frames(data):
+            v = refcodec.mp_one(payload)
+            if isinstance(v, refcodec.Bin):
+                continue  # stream header
+            st, val = refcodec.mp_one(v.data)
+            if st == refcodec.T_DESC:
+                name, fields = val
+                out.append(["D", TLA_DESC.get((name, tuple(tuple(f) for f in fields)), "?%s" % name)])
+            else:
+                out.append(["R", kind])
+        return out
+
+    got = frames_of(bufs[w].getvalue()[before:], k)
+    ok = bool(got) and got[-1][0] == "R" and sum(1 for f in got if f[0] == "R") == 1
+    if model_steps is not None:
+        for wn in wnames:
+            model_reg = {}
+            for (pw, _), frames in zip(path, model_steps):
+                if pw == wn:
+                    for f in frames:
+                        if f[0] == "D":
+                            model_reg[_real_ident(f[1])] = f[1]
+            impl_reg = {}
+            for f in frames_of(bufs[wn].getvalue(), "?"):
+                if f[0] == "D":
+                    if f[1] not in TLA_FIELDS:
+                        ok = False
+                        continue
+                    impl_reg[_real_ident(f[1])] = f[1]
+            if impl_reg != model_reg:
+                ok = False
     for wr in writers.values():
         wr.fp = None
-    return got == want, got
+    exact = model_steps is not None and got == model_steps[-1]
+    return ok, got, exact
 
 
 def tla_leg(run, cfg, workers, label):
@@ -518,25 +560,29 @@ def tla_leg(run, cfg, workers, label):
     for s_, t_, w, k in edges:
         adj.setdefault(s_, []).append((t_, w, k))
     path = {init: []}
+    psteps = {init: []}  # model frames of every step along the shortest path
     order = [init]
     for n in order:
         for t_, w, k in adj.get(n, ()):
             if t_ not in path:
                 path[t_] = path[n] + [[w, k]]
+                psteps[t_] = psteps[n] + [nodes[t_]["last"]]
                 order.append(t_)
     wnames = sorted({w for _, _, w, _ in edges})
-    jobs = [(path[s_] + [[w, k]], nodes[t_]["last"], wnames) for s_, t_, w, k in edges if s_ in path]
+    jobs = [(path[s_] + [[w, k]], psteps[s_] + [nodes[t_]["last"]], wnames) for s_, t_, w, k in edges if s_ in path]
     ctx = mp.get_context("fork")
     diverged = 0
+    exact_n = 0
     with ctx.Pool(workers or 16) as pool:
-        for (ok, got), job in zip(pool.imap(replay_edge, jobs, chunksize=256), jobs):
+        for (ok, got, exact), job in zip(pool.imap(replay_edge, jobs, chunksize=256), jobs):
+            exact_n += 1 if exact else 0
             if not ok:
                 diverged += 1
-                run.add_violation("C03:tla:implementation-diverges-from-model:%s" % job[0][-1][1], {"kind": "tla-edge", "path": job[0], "writers": job[2]},
-                                  {"model_frames": job[1], "implementation_frames": got})
+                run.add_violation("C03:tla:implementation-diverges-from-model:%s" % job[0][-1][1], {"kind": "tla-edge", "path": job[0], "writers": job[2], "model_steps": job[1]},
+                                  {"model_frames": job[1][-1], "implementation_frames": got})
     bad_nodes = [n for n, v in nodes.items() if v["bad"]]
     info = {"cfg": cfg, "tlc_states_generated": g["generated"], "tlc_distinct_states": g["distinct"], "graph_nodes": len(nodes), "graph_edges": len(edges),
-            "edges_replayed_on_implementation": len(jobs), "edges_diverging": diverged, "invariant_violated_in_model": g["violated"] or bool(bad_nodes)}
+            "edges_replayed_on_implementation": len(jobs), "edges_diverging": diverged, "edges_with_frames_identical_to_the_model": exact_n, "invariant_violated_in_model": g["violated"] or bool(bad_nodes)}
     if g["violated"] or bad_nodes:
         # a protocol defect found on the model: confirm it on the code with the shortest history that reaches a bad state
         n = min(bad_nodes, key=lambda x: len(path.get(x, [0] * 99))) if bad_nodes else None
@@ -581,7 +627,7 @@ def main(tier, seed, workers=None):
     for packer, m, kinds, cap in plans:
         CONF.clear()
         CONF.update({"packer": packer.split("+")[0], "m": m, "kinds": kinds, "werror": packer.endswith("+werror")})
-        s, t, fix, depth = bfs(run, step, cap, workers, label="%s m=%d: " % (packer, m), full_depth=3 if m == 1 else 2)
+        s, t, fix, depth = bfs(run, step, cap, workers, label="%s m=%d: " % (packer, m), full_depth=3 if m == 1 else 2, budget=1500000 if thorough else 120000)
         machines.append({"packer": packer, "writers": m, "kinds": kinds, "states": s, "transitions": t, "fixpoint": fix, "depth": depth})
         tot_s += s
         tot_t += t
